@@ -1141,7 +1141,9 @@ class Fn:
             self.loop_mode = None
         if (dict(self.nsite), len(self.extra_params), len(self.extra_outs), len(self.trace)) != sites0:
             raise Unsupported('va_arg inside a loop')
-        state = [k_ for k_ in keys if k_ not in ('$exit', '$path') and e1.get(k_) != env.get(k_)]
+        # `$ub` is always part of the loop state: whether an iteration can raise it depends on incidental details (`% 256` vs `& 255`),
+        # and the interface of the loop definition should not
+        state = [k_ for k_ in keys if k_ not in ('$exit', '$path') and (e1.get(k_) != env.get(k_) or k_ == '$ub')]
         self.lets, self.n, self.ktype, self.aux_defs, self.nloops = snap
         # pass 2: the iteration over parameter names
         self.nloops += 1
